@@ -125,7 +125,7 @@ order_t = order_q + order_cases(rnd, [(2, 10, None), (3, 50, None), (4, 3, None)
 redef_q = redef_cases(rnd, [(2, 2, None), (3, 3, None), (4, 1, pick(rnd, 4, 1))])
 redef_t = redef_q + redef_cases(rnd, [(2, 12, None), (3, 50, None), (4, 2, None)])
 access_q = access_cases(rnd, [(2, 2), (3, 4)])
-access_t = access_q + access_cases(rnd, [(2, 10), (3, 50), (4, 10)])
+access_t = access_q + access_cases(rnd, [(2, 10), (3, 50), (4, 5)])
 
 # quick must contain the diamond c0 (c1 c2), c1 (c3), c2 (c3) (shape 74) and c0 (c1 c2), c1 (c2 c3),
 # c2 (c3) (shape 84): a shared ancestor appears once, its :before method runs once
@@ -203,7 +203,7 @@ spec = [
              "pair (declaring class k, instance class c): applicable iff k is in the precedence list of c (else a condition); writer then reader, (setf "
              "accessor) then accessor and slot-value return the written symbolic value, and the other slot keeps its initial value/boundness (locality); slot-makunbound unbinds that slot only. "
              "slip's writer takes (object value), CLOS (value object): the harness follows slip's documented order. Half of the cases carry a "
-             "redefinition (readers of the final definitions only). Bounds: quick 2 cases n=2, 4 cases n=3; thorough +10 n=2, +50 n=3, +10 n=4."},
+             "redefinition (readers of the final definitions only). Bounds: quick 2 cases n=2, 4 cases n=3; thorough +10 n=2, +50 n=3, +5 n=4."},
 ]
 out = os.path.join(os.path.dirname(os.path.abspath(__file__)), "..", "..", "obligations.d", "C12.json")
 json.dump(spec, open(out, "w"), indent=0)
